@@ -181,6 +181,35 @@ Proof.
   - apply coh_setv; [|apply coh_both]. eapply coh_vars; [|exact C]. rewrite vars_release. reflexivity.
 Qed.
 
+(* a fresh block replaces the payload of v without reading it: allocate then release (Variant), or
+   release then allocate (Xml::Variant) *)
+Lemma Inv_replace f s v b o l c : Inv s -> (v < length (vars s))%nat -> getv s v = VLive (HBlock b) o ->
+  Inv (setv (release f (fst (alloc s 1 l c)) (HBlock b)) v (both (HBlock (length (heap s))))).
+Proof.
+  intros I Lv G. destruct I as [W C].
+  pose proof (getv_cnt _ _ _ _ G) as P.
+  assert (LV : live s b) by (apply (held_live s zero b W); unfold zero; lia).
+  assert (LV1 := live_alloc s 1 l c b LV).
+  pose proof (Inv_clone f s v b o l c (conj W C) Lv G) as X.
+  rewrite (touch_live _ _ (proj2 LV1)) in X. exact X.
+Qed.
+
+Lemma Inv_release_alloc f s v r o l c : Inv s -> (v < length (vars s))%nat -> getv s v = VLive r o ->
+  Inv (setv (fst (alloc (release f s r) 1 l c)) v (both (HBlock (length (heap (release f s r)))))).
+Proof.
+  intros [W C] Lv G. split.
+  - eapply wf_setv.
+    + apply (wf_alloc_h (release f s r) (fun x => zero x - bz (href x r)) l c). apply (wf_release_h f s zero r W).
+      intros b ->. pose proof (getv_cnt _ _ _ _ G). unfold zero; lia.
+    + change (vars (fst (alloc (release f s r) 1 l c))) with (vars (release f s r)).
+      rewrite vars_release. exact Lv.
+    + intros x. change (getv (fst (alloc (release f s r) 1 l c)) v) with (getv (release f s r) v).
+      rewrite (getv_vars s _ v (vars_release f s r)), G, refers_href, refers_both. simpl.
+      unfold zero, bz. destruct (href x r), (Nat.eqb (length (heap (release f s r))) x); lia.
+  - apply coh_setv; [|apply coh_both]. eapply coh_vars; [|exact C].
+    change (vars (fst (alloc (release f s r) 1 l c))) with (vars (release f s r)). apply vars_release.
+Qed.
+
 Lemma Inv_write_inplace s b n : Inv s -> live s b -> rc (getb s b) = 1 -> Inv (write_inplace s b n).
 Proof.
   intros [W C] L R. split; [apply wf_write_inplace; assumption|].
@@ -215,22 +244,34 @@ Lemma Inv_str_detach s v r o g : Inv s -> (v < length (vars s))%nat -> getv s v 
   Inv (str_detach s v r g).
 Proof.
   intros I Lv G. unfold str_detach. destruct r as [|b].
-  - exact (Inv_alloc_store s v g (Z.lor g 3) I Lv ltac:(intros; rewrite G; reflexivity)).
+  - exact (Inv_alloc_store s v _ _ I Lv ltac:(intros; rewrite G; reflexivity)).
   - destruct (Inv_live s v b o I G) as [[L F] R]. rewrite (touch_live _ _ F).
-    destruct ((rc (getb s b) =? 1) && (len (getb s b) + g <=? cap (getb s b))) eqn:E.
+    destruct ((rc (getb s b) =? 1) && (slen (push (val (getb s b)) g) <=? cap (getb s b))) eqn:E.
     + apply andb_true_iff in E. destruct E as [E _]. apply Z.eqb_eq in E.
       apply Inv_write_inplace; [exact I|split; assumption|exact E].
-    + exact (Inv_clone FStr s v b o (len (getb s b) + g) (Z.lor (len (getb s b) + g) 3) I Lv G).
+    + exact (Inv_clone FStr s v b o _ _ I Lv G).
 Qed.
 
 Lemma Inv_var_detach s v r o g : Inv s -> (v < length (vars s))%nat -> getv s v = VLive r o ->
   Inv (var_detach s v r g).
 Proof.
   intros I Lv G. unfold var_detach. destruct r as [|b].
-  - exact (Inv_alloc_store s v g 0 I Lv ltac:(intros; rewrite G; reflexivity)).
+  - exact (Inv_alloc_store s v _ 0 I Lv ltac:(intros; rewrite G; reflexivity)).
   - destruct (Inv_live s v b o I G) as [[L F] R]. rewrite (touch_live _ _ F).
     destruct (rc (getb s b) >? 1) eqn:E.
-    + exact (Inv_clone FVar s v b o (len (getb s b) + g) 0 I Lv G).
+    + exact (Inv_clone FVar s v b o _ 0 I Lv G).
+    + apply Inv_write_inplace; [exact I|split; assumption|]. rewrite Z.gtb_ltb in E. apply Z.ltb_ge in E. lia.
+Qed.
+
+Lemma Inv_assign_val f s v r o c : Inv s -> (v < length (vars s))%nat -> getv s v = VLive r o ->
+  Inv (assign_val f s v r c).
+Proof.
+  intros I Lv G. unfold assign_val. destruct r as [|b].
+  - exact (Inv_alloc_store s v c 0 I Lv ltac:(intros; rewrite G; reflexivity)).
+  - destruct (Inv_live s v b o I G) as [[L F] R]. rewrite (touch_live _ _ F).
+    destruct (rc (getb s b) >? 1) eqn:E.
+    + destruct f; try exact (Inv_replace FVar s v b o c 0 I Lv G).
+      exact (Inv_release_alloc FVar s v (HBlock b) o c 0 I Lv G).
     + apply Inv_write_inplace; [exact I|split; assumption|]. rewrite Z.gtb_ltb in E. apply Z.ltb_ge in E. lia.
 Qed.
 
@@ -239,13 +280,13 @@ Proof.
   intros I. pose proof I as [W C]. unfold step, step_gen. rewrite (wf_flt _ _ W).
   destruct (negb (forallb (fun v => Nat.ltb v (length (vars s))) (op_vars o))) eqn:B; [exact I|].
   apply negb_false_iff in B.
-  destruct o as [v n|v|d sv|d sv|d sv|v|a b|v|v|v]; cbn [op_vars forallb] in B;
+  destruct o as [v n|v|d sv|d sv|d sv|v|a b|d sv|v c|v m|v|v]; cbn [op_vars forallb] in B;
   rewrite ?andb_true_r, ?andb_true_iff, ?Nat.ltb_lt in B.
   - (* OCreate *)
     destruct (getv s v) eqn:G; [|exact I].
     assert (N : forall b, refers b (getv s v) = false) by (intros; rewrite G; reflexivity).
     destruct f.
-    + exact (Inv_alloc_store s v n (Z.lor n 3) I B N).
+    + exact (Inv_alloc_store s v n _ I B N).
     + exact (Inv_alloc_store s v n 0 I B N).
     + change (Inv (inc (setv (fst (alloc s 0 n 0)) v (both (HBlock (length (heap s))))) (length (heap s)))).
       rewrite ptr_create_eq. exact (Inv_alloc_store s v n 0 I B N).
@@ -351,11 +392,24 @@ Proof.
     + apply coh_setv; [apply coh_setv; [exact C|]|].
       * intros r o H; inversion H; subst. apply (C _ _ _ Ga).
       * intros r o H; inversion H; subst. apply (C _ _ _ Gb).
+  - (* OAssignRaw *)
+    destruct B as [Bd Bs].
+    destruct f; try exact I.
+    destruct (getv s d) as [|rd od] eqn:Gd; [exact I|].
+    destruct (getv s sv) as [|r o] eqn:Gs; [exact I|].
+    pose proof (C _ _ _ Gs) as RO. subst o.
+    apply (Inv_share_release_store FPtr s d rd od sv r r _ I Bd Gd Gs).
+    + intros c. apply refers_both.
+    + apply coh_both.
+  - (* OAssignVal *)
+    destruct f; try exact I; destruct (getv s v) as [|r o] eqn:G; try exact I.
+    + exact (Inv_assign_val FVar s v r o c I B G).
+    + exact (Inv_assign_val FXml s v r o c I B G).
   - (* OWrite *)
     destruct f; try exact I; destruct (getv s v) as [|r o] eqn:G; try exact I.
-    + exact (Inv_str_detach s v r o 1 I B G).
-    + exact (Inv_var_detach s v r o 1 I B G).
-    + exact (Inv_var_detach s v r o 1 I B G).
+    + exact (Inv_str_detach s v r o m I B G).
+    + exact (Inv_var_detach s v r o m I B G).
+    + exact (Inv_var_detach s v r o m I B G).
   - (* ODetach *)
     destruct f; try exact I; destruct (getv s v) as [|r o] eqn:G; try exact I.
     + exact (Inv_str_detach s v r o 0 I B G).
@@ -494,7 +548,7 @@ Ltac ext_go :=
 
 Theorem step_ext obj_only f s o : ext s (step_gen obj_only f s o).
 Proof.
-  unfold step_gen, str_detach, var_detach, ptr_swap, alloc. cbv zeta. ext_go.
+  unfold step_gen, str_detach, var_detach, assign_val, ptr_swap, alloc. cbv zeta. ext_go.
 Qed.
 
 Lemma run_from_ext f ops s : ext s (fold_left (step f) ops s).
